@@ -11,6 +11,9 @@
    Conventions: a stream is the byte list of a section; stream.seek(p) followed by reads is
    [at_pos stream p]; stream.tell() is an explicit Z.  Containers and namedtuples are association
    lists / (class name, positional values).  ConstructError inside struct_parse = Err EParse.
+   The position-passing style assumes that nothing else moves a stream between two reads of a
+   generator; Model/C07Session.v models the cursors, the DIE caches and the consumer's calls between
+   yields explicitly and Proofs/C07Session.v relates the two.
    The code modelled is the REPAIRED code (fix: commits recorded in known_findings.d/C07.json).
    No proofs here: Proofs/C07*.v. *)
 From Coq Require Import String.
